@@ -158,7 +158,7 @@ func (rt *GraphicsPlatform) Push() {
 		return
 	}
 	var el any
-	if len(rt.elements) == 1 {
+	if len(rt.elements) == 1 && !(rt.attr != defaultAttr && hasOwnAttr(rt.elements[0])) {
 		el = rt.elements[0]
 	} else {
 		el = &Group{Elements: rt.elements}
@@ -172,6 +172,19 @@ func (rt *GraphicsPlatform) Push() {
 
 	rt.SVG.Elements = append(rt.SVG.Elements, el)
 	rt.elements = nil
+}
+
+// hasOwnAttr reports whether el was created with attributes of its own,
+// such as the background rectangle of clear or the group of gridn, which
+// must not be overwritten by the pen style in Push.
+func hasOwnAttr(el any) bool {
+	switch e := el.(type) {
+	case *Rect:
+		return e.Attr != (Attr{})
+	case *Group:
+		return e.Attr != (Attr{})
+	}
+	return false
 }
 
 // Move sets the current cursor position.
